@@ -980,7 +980,9 @@ class Executor(Exec):
                             return recv[kk]
                     return d
                 return recv.get(k, d)
-            if name in ("items", "keys", "values"):
+            if name == "keys":
+                return recv.keys()  # a live view, as in Python (set operations with sets are defined on it)
+            if name in ("items", "values"):
                 return list(getattr(recv, name)())
             if name == "setdefault":
                 if is_z3(args[0]):
